@@ -9,7 +9,7 @@ import "sort"
 var archNames = []string{
 	"single0", "single65535", "singleRnd", "sparse", "arr4095", "arr4096", "bmp4097", "rnd10", "rnd30", "rnd50", "rnd90",
 	"everyOther", "full", "fullMinusFirst", "fullMinusLast", "fullMinusFew", "oneRun", "fewRuns", "manyShortRuns",
-	"runsTouchEdges", "wordEdges", "denseLow", "denseHigh", "twoValuesEdge", "arr4096runs", "tiny",
+	"runsTouchEdges", "wordEdges", "denseLow", "denseHigh", "twoValuesEdge", "arr4096runs", "tiny", "pow2card",
 }
 
 func genChunk(r *Rng, arch string) []IV {
@@ -117,6 +117,9 @@ func genChunk(r *Rng, arch string) []IV {
 		for i := 0; i < r.Intn(20); i++ {
 			s.Remove(65535 - r.Range(0, 20000))
 		}
+	case "pow2card":
+		// exactly 2^k values (k = 11..16) as one run, a few runs or scattered values
+		return exactCardChunk(r, 1<<uint(11+r.Intn(6))).iv
 	case "twoValuesEdge":
 		s.Add(edgeVal16(r))
 		s.Add(edgeVal16(r))
@@ -229,7 +232,7 @@ type GenOpts struct {
 }
 
 var lightArch = []string{"single0", "single65535", "singleRnd", "sparse", "tiny", "oneRun", "fewRuns", "runsTouchEdges", "twoValuesEdge", "wordEdges", "manyShortRuns", "arr4096runs"}
-var heavyArch = []string{"arr4095", "arr4096", "bmp4097", "rnd10", "rnd30", "rnd50", "rnd90", "everyOther", "full", "fullMinusFirst", "fullMinusLast", "fullMinusFew", "denseLow", "denseHigh", "manyShortRuns", "oneRun"}
+var heavyArch = []string{"arr4095", "arr4096", "bmp4097", "rnd10", "rnd30", "rnd50", "rnd90", "everyOther", "full", "fullMinusFirst", "fullMinusLast", "fullMinusFew", "denseLow", "denseHigh", "manyShortRuns", "oneRun", "pow2card"}
 
 // genSet composes a model set from chunk archetypes.
 func genSet(r *Rng, o GenOpts) (*ISet, []string) {
